@@ -359,6 +359,10 @@ func getSidecarIngressPortList(node *model.Proxy) sets.Set[int] {
 	sidecarScope := node.SidecarScope
 	ingressPortListSet := sets.New[int]()
 	for _, ingressListener := range sidecarScope.Sidecar.Ingress {
+		if ingressListener.GetPort() == nil {
+			// rejected by validation; an ingress listener without a port defines nothing
+			continue
+		}
 		ingressPortListSet.Insert(int(ingressListener.Port.Number))
 	}
 	return ingressPortListSet
@@ -449,6 +453,10 @@ func (lb *ListenerBuilder) buildInboundChainConfigs() []inboundChainConfig {
 		}
 
 		for _, i := range lb.node.SidecarScope.Sidecar.Ingress {
+			if i.GetPort() == nil {
+				// rejected by validation; an ingress listener without a port defines nothing
+				continue
+			}
 			port := model.ServiceInstancePort{
 				ServicePort: &model.Port{
 					Name:     i.Port.Name,
